@@ -36,6 +36,8 @@ func Rewrite(files []File, outDir string) (map[string]string, error) {
 		switch f.Mode {
 		case "sched":
 			nb, err = rewriteSched(f.Rel, b)
+		case "rand":
+			nb, err = rewriteRandImport(b)
 		case "ilaenv":
 			nb, err = rewriteIlaenv(b)
 		case "iparmq":
